@@ -215,7 +215,7 @@ class Sequential(Part):
 
 class Track(Part):
     name = "track"
-    rule = ("track() over a list / range / generator of length 0..50 with implicit or explicit total, auto_refresh on (real helper thread, update_period 1 ms; "
+    rule = ("track() over a list / range / generator of length 0..1500 (mostly <= 50; lengths around 100 / 200 / 1000) with implicit or explicit total, auto_refresh on (real helper thread, update_period 1 ms; "
             "only the final state is asserted) and off, into a fresh task or an existing one: yields every element once in order and leaves completed == "
             "number of elements; non-trivial = generator input or auto_refresh on with >= 2 elements")
     budget = {"quick": (4, 150), "thorough": (16, 1500)}
@@ -223,7 +223,7 @@ class Track(Part):
 
     def strategy(self, tier):
         return st.builds(lambda n, kind, explicit, auto, existing: {"n": n, "kind": kind, "explicit_total": explicit, "auto_refresh": auto, "existing": existing},
-                         st.one_of(st.integers(0, 5), st.integers(0, 50)), st.sampled_from(["list", "range", "generator"]), st.booleans(), st.booleans(), st.booleans())
+                         st.one_of(st.integers(0, 5), st.integers(0, 50), st.integers(0, 50), st.sampled_from([99, 100, 101, 199, 200, 201, 250, 299, 1000, 1234]), st.integers(51, 1500)), st.sampled_from(["list", "range", "generator"]), st.booleans(), st.booleans(), st.booleans())
 
     def check(self, spec, ctx):
         from rich.console import Console
